@@ -159,3 +159,8 @@ def asciiIgnore (s : Str) : Str := s.filter fun c => c.toNat < 128
 def secureFilename (nfkd : Str → Str) (s : Str) : Str := secureAscii (asciiIgnore (nfkd s))
 
 end Wz.Paths
+
+namespace Wz.Paths
+/-- alias: the ASCII stage of `secure_filename` under the name used in DESIGN.md -/
+abbrev secureFilenameAscii (s : Str) : Str := secureAscii s
+end Wz.Paths
